@@ -310,6 +310,10 @@ class Normalizer:
         """-> (poly, canonical z3 term of +-poly, sigma) with poly == sigma * canon (mod N)"""
         N = self.M
         p = self.poly(t)
+        return self.canonical_poly(p)
+
+    def canonical_poly(self, p):
+        N = self.M
         if p.is_zero():
             return p, z3.IntVal(0), 1
         first = min(p.t)
